@@ -13,16 +13,17 @@ from ..kmodel import KModel
 LEVEL = "proof"
 
 MANIFEST = {
-    "technique": "Coq-proved structure lemmas over the extracted engine model (partial) + translator-regenerated stage order + "
-                 "end-to-end differential correspondence + independent reference expander as oracle",
-    "text": "Model/EngineSM.v models CTransitionTableModel, the expander stages of expand_secondfiltering (order from Gen/Pipeline.v), "
-            "innerexpand_secondfiltering(_PROTO)/actionsignatures/transitionsperstate/perguard for name/case/counter tags. Proved: "
-            "C16_outside (lines without block keywords pass all 15 stages unchanged, any model), C16_once_per_element_partial (a block body is "
-            "expanded exactly once per element, in list order, with index i and the i-th alphabet value), C16_letter (the engine's alphabet "
-            "counter equals a..zA..Z cycling), C16_blank_collapse_partial. The per-line substitution = case variant, the table model = "
-            "first-appearance order and the nested transition blocks are tied by differential execution against the real code and observed "
-            "against an independent Python reference expander on generated probe templates.",
-    "note": "PARTIAL: no full-strength theorem engine = ref_expand for C16; signature/member/documentation/attribute tags are not modelled.",
+    "technique": "Coq proof (per-element block of the engine = reference block of Spec/RefExpand16.v; first-appearance order of the table "
+                 "model) + translator-regenerated stage order + end-to-end differential correspondence; Python reference as cross-check of the Spec",
+    "text": "Theorems over Model/EngineSM.v: C16_block_is_ref / C16_sig_block_is_ref (for every element list and every block body of the grammar "
+            "the engine's expansion function returns the reference block: body once per element in list order, name tags in their case variant, "
+            "NUM/ALPH = index/letter), C16_block_stage (PairExpander.Expand of the kind's stage replaces exactly the block; stage present in the "
+            "source-derived stage list: C16_stage_in_source), C16_model_first_appearance (states/events/actions/guards/signatures of the engine's "
+            "table model = first-appearance lists of the table), C16_replace_segmentwise, C16_outside_unchanged, C16_letter. The real output is "
+            "compared with ref16 (extracted) on every generated template accepted by in_grammar16/wf16, and ref16 with an independent Python reference.",
+    "note": "PARTIAL: the composition of all stages and phases over a whole template (engine16 = ref16) and the nested per-state/per-event/"
+            "per-transition blocks (alternative text) are not proved; they are modelled, tied by differential execution and observed against the "
+            "references. signature/member/documentation/attribute tags are not modelled. Values substituted must not contain '<' '>' (checked per case).",
 }
 RULE = ("probe templates: 1-5 sections out of {plain text with blank runs and TABs, PER_STATE/EVENT/ACTION/GUARD/STRUCT/MSG/PROTOMSG block with "
         "1-3 body lines using the name tag of the block in its three case variants plus NUM/ALPH, PER_ACTION_SIGNATURE block, nested "
@@ -84,8 +85,8 @@ def ref_model(table, structs, protos, msgs):
     m["GUARD"] = uniq([r[4] for r in table if present(r[4])])
     sigs, seen = [], set()
     for r in table:
-        if present(r[3]) and (r[3] + r[1]) not in seen:
-            seen.add(r[3] + r[1])
+        if present(r[3]) and (r[3], r[1]) not in seen:
+            seen.add((r[3], r[1]))
             sigs.append((r[3], r[1]))
     m["SIG"] = sigs
     m["STRUCT"], m["PROTOMSG"], m["MSG"] = list(structs), list(protos), list(msgs)
@@ -148,7 +149,7 @@ def ref_section(sec, m, table):
     if kind == "plain":
         return list(sec[1])
     if kind == "elem":
-        fam, body = sec[1], sec[2]
+        fam, body = sec[1], [line_text(l) for l in sec[2]]
         out = []
         for i, name in enumerate(m[fam]):
             out += [put_counters(put_name(l, fam, name), i) for l in body]
@@ -156,12 +157,13 @@ def ref_section(sec, m, table):
     if kind == "sig":
         out = []
         for i, (a, e) in enumerate(m["SIG"]):
-            out += [put_counters(put_name(put_name(l, "ACTION", a), "EVENT", e), i) for l in sec[1]]
+            out += [put_counters(put_name(put_name(line_text(l), "ACTION", a), "EVENT", e), i) for l in sec[1]]
         return out
     if kind == "trans":
         _k, s_pre, e_pre, g_body, e_post, s_post = sec
         out = []
-        for st in uniq([r[0] for r in table]):
+        srcs = uniq([r[0] for r in table])
+        for st in srcs + [x for x in m["STATE"] if x not in srcs]:   # target-only states follow, without transitions
             out += [put_name(l, "STATE", st) for l in s_pre]
             for ev in uniq([r[1] for r in table if r[0] == st]):
                 out += [put_name(put_name(l, "STATE", st), "EVENT", ev) for l in e_pre]
@@ -193,9 +195,9 @@ def render_section(sec):
         return list(sec[1])
     if kind == "elem":
         b = BLOCK[sec[1]]
-        return ["<<<%s_BEGIN>>>\n" % b] + list(sec[2]) + ["<<<%s_END>>>\n" % b]
+        return ["<<<%s_BEGIN>>>\n" % b] + [line_text(l) for l in sec[2]] + ["<<<%s_END>>>\n" % b]
     if kind == "sig":
-        return ["<<<PER_ACTION_SIGNATURE_BEGIN>>>\n"] + list(sec[1]) + ["<<<PER_ACTION_SIGNATURE_END>>>\n"]
+        return ["<<<PER_ACTION_SIGNATURE_BEGIN>>>\n"] + [line_text(l) for l in sec[1]] + ["<<<PER_ACTION_SIGNATURE_END>>>\n"]
     _k, s_pre, e_pre, g_body, e_post, s_post = sec
     return (["<<<PER_STATETRANSITION_BEGIN>>>\n"] + s_pre + ["<<<PER_EVENTTRANSITION_BEGIN>>>\n"] + e_pre + ["<<<PER_GUARDTRANSITION_BEGIN>>>\n"]
             + g_body + ["<<<PER_GUARDTRANSITION_END>>>\n"] + e_post + ["<<<PER_EVENTTRANSITION_END>>>\n"] + s_post + ["<<<PER_STATETRANSITION_END>>>\n"])
@@ -210,15 +212,21 @@ def lit(rng):
 
 
 def body_line(rng, fam, counters=True):
-    tags = ["<<<%s>>>" % v for v in VARIANTS[fam] if v]
+    """a block body line as a segment list [["L", text] | ["T", tag name], ...]"""
+    tags = [v for v in VARIANTS[fam] if v]
     if counters:
-        tags += ["<<<NUM>>>", "<<<ALPH>>>"]
-    parts = [rng.choice(["    ", "", "  "])]
+        tags += ["NUM", "ALPH"]
+    segs = [["L", rng.choice(["    ", "", "  "])]]
     for _ in range(rng.randint(1, 3)):
-        parts.append(lit(rng))
-        parts.append(rng.choice(tags))
-    parts.append(lit(rng))
-    return "".join(parts) + "\n"
+        segs.append(["L", lit(rng)])
+        segs.append(["T", rng.choice(tags)])
+    segs.append(["L", lit(rng)])
+    return segs
+
+
+def line_text(l):
+    """a body line (segment list, or already a string for the nested transition blocks) as template text"""
+    return l if isinstance(l, str) else e2e.render_line(l)
 
 
 def trans_line(rng):
@@ -239,11 +247,11 @@ def section(rng):
         return ("plain", [rng.choice(TEXT) + "\n" for _ in range(rng.randint(1, 4))])
     if r < 0.7:
         fam = rng.choice(["STATE", "EVENT", "ACTION", "GUARD", "STRUCT", "MSG", "PROTOMSG"])
-        return ("elem", fam, [body_line(rng, fam) if rng.random() < 0.85 else "    literal;\n" for _ in range(rng.randint(1, 3))])
+        return ("elem", fam, [body_line(rng, fam) if rng.random() < 0.85 else [["L", "    literal;"]] for _ in range(rng.randint(1, 3))])
     if r < 0.8:
         return ("sig", [body_line(rng, rng.choice(["ACTION", "EVENT"])) for _ in range(rng.randint(1, 2))])
-    return ("trans", [body_line(rng, "STATE", False) for _ in range(rng.randint(0, 1))],
-            [body_line(rng, "EVENT", False) for _ in range(rng.randint(0, 1))],
+    return ("trans", [line_text(body_line(rng, "STATE", False)) for _ in range(rng.randint(0, 1))],
+            [line_text(body_line(rng, "EVENT", False)) for _ in range(rng.randint(0, 1))],
             [trans_line(rng) for _ in range(rng.randint(1, 4))],
             ["    end event;\n"] if rng.random() < 0.4 else [], ["end state <<<STATENAME>>>;\n"] if rng.random() < 0.4 else [])
 
@@ -275,6 +283,33 @@ def expected_text(sections, m, table):
     return "".join(out).replace("\t", "    ")
 
 
+def wire16(secs):
+    """sections -> template16 wire format, or None when a section is outside the Coq syntax (nested transition blocks)"""
+    t = []
+    for sec in secs:
+        if sec[0] == "plain":
+            t += [["X", l[:-1]] for l in sec[1]]
+        elif sec[0] == "elem":
+            t.append(["B", sec[1], [l for l in sec[2]]])
+        elif sec[0] == "sig":
+            t.append(["S", [l for l in sec[1]]])
+        else:
+            return None
+    return t
+
+
+def coq_side(km, secs, table, structs, protos, msgs):
+    """(in the proved domain?, reference text of Spec/RefExpand16.v, Spec rendering) or None"""
+    t = wire16(secs)
+    if t is None:
+        return None
+    rows = [list(r) for r in table]
+    dom = km.call("d16.in_grammar16", t) == b"1" and km.call("d16.wf16", rows, structs, protos, msgs, t) == b"1"
+    ref = km.call("s16.ref16", rows, structs, protos, msgs, t).decode("utf-8", "surrogateescape")
+    rendered = [x.decode("utf-8", "surrogateescape") for x in km.call("s16.render", t)]
+    return dom, ref, rendered
+
+
 def one_case(ctx, km, files, kind, seed, table=None):
     rng = random.Random(seed)
     table = table if table is not None else kj.random_table(rng)
@@ -285,6 +320,24 @@ def one_case(ctx, km, files, kind, seed, table=None):
     structs, protos, msgs = e2e.iface_parts(iface)
     m = ref_model(table, structs, protos, msgs)
     exp = {name: expected_text(secs, m, table) for name, secs in files.items()} if well_formed_table(table) else None
+    coq = {name: coq_side(km, secs, table, structs, protos, msgs) for name, secs in files.items()}
+    for name, c in coq.items():
+        if c is None:
+            continue
+        ctx.count("coq_syntax_files")
+        if c[2] != tfiles[name]:
+            ctx.tie_broken("Spec render16 vs harness rendering", {"file": name, "sections": shrink_note({name: files[name]})})
+        if c[0]:
+            ctx.count("inside_grammar16")
+            if exp is not None and c[1] != exp[name]:
+                ctx.tie_broken("Spec/RefExpand16.ref16 vs the independent Python reference expander",
+                               {"sections": shrink_note({name: files[name]}), "table": table, "spec": c[1], "python": exp[name]})
+            if not isinstance(real, tuple) and real.get(name) != c[1]:
+                ctx.violation("per-element expansion differs from the reference expander ref16 on a template of in_grammar16",
+                              {"files": shrink_note(files), "kind": kind, "seed": seed, "table": table, "file": name,
+                               "real": real.get(name), "expected": c[1], "finding_key": "c16-grammar-case"})
+        else:
+            ctx.count("outside_grammar16")
     return real, model, exp, table, m
 
 
